@@ -1,4 +1,5 @@
 import Swat4.Lemmas.GS1
+import Swat4.Lemmas.GS1Flood
 import Swat4.Lemmas.Details
 import Swat4.Lemmas.DetailsComplete
 import Swat4.Lemmas.DetailsEncode
@@ -421,3 +422,60 @@ example : RatioSpec (a "-0/+5") := (ratioSpec_iff _).mp (by decide)
 example : ¬ RatioSpec (a "1/2/3") := fun h => by have := (ratioSpec_iff _).mpr h; revert this; decide
 
 end Swat4.C07.Examples
+
+/-! ## a responder that floods (op `flood`; reviewer §3 item 12)
+
+The harness's `flood` responder repeats its datagram until `Query` returns; `Drv/C07.lean` feeds the model
+`ds ++ ds ++ ds` instead of an endless stream.  The theorems below say what finite prefix of the endless stream decides
+the model's answer — for EVERY datagram list, with no hypothesis on its content (junk, empty and oversize datagrams,
+inconsistent duplicates, several finals included; `C08.collect_dup`'s `ConsistentDups` is not needed). -/
+namespace Swat4.C07
+open Swat4 Swat4.GS1
+
+/-- **C07 (flood, the driver's finite stand-in is exact).**  For every list of datagrams `ds` and every `n`: the query
+against a responder that sends `ds` `n + 2` times over ends exactly as the query against one that sends it twice —
+with the same response, the same error, or (both) by timeout.  Hence the result of ANY number ≥ 2 of repetitions, and
+so of the endless repetition up to any point, is `runQuery (ds ++ ds)`: if two passes are read through without a result
+every later pass is too and only the deadline ends the query.  Two passes are needed in general (`flood_one_pass_not_enough`);
+one suffices when `ds` is a single datagram (`flood_single_stabilises`), which is all the harness's `flood` op sends. -/
+theorem flood_stabilises (ds : List Bytes) (n : Nat) :
+    runQuery (List.replicate (n + 2) ds).flatten = runQuery (ds ++ ds) :=
+  runQueryFrom_rep [] ds n
+
+/-- **the driver's choice of three repetitions** (`Drv/C07.lean:107`, `ds ++ ds ++ ds`) is justified for every `ds`:
+any larger number of repetitions gives the same result as three (and as two). -/
+theorem flood_three_suffice (ds : List Bytes) (n : Nat) :
+    runQuery (List.replicate (n + 3) ds).flatten = runQuery (ds ++ ds ++ ds) ∧
+    runQuery (ds ++ ds ++ ds) = runQuery (ds ++ ds) := by
+  have h3 : runQuery (ds ++ ds ++ ds) = runQuery (ds ++ ds) := by
+    have := flood_stabilises ds 1
+    simpa [List.replicate_succ, List.append_assoc] using this
+  exact ⟨(flood_stabilises ds (n + 1)).trans h3.symm, h3⟩
+
+/-- **one datagram repeated** (the only shape the harness's `flood` op accepts): the first read decides — any number
+≥ 1 of copies of `d` gives what the single `d` gives. -/
+theorem flood_single_stabilises (d : Bytes) (n : Nat) : runQuery (List.replicate (n + 1) d) = runQuery [d] :=
+  runQueryFrom_replicate_single d n
+
+/-- **one pass is NOT enough for a list** (so `runQuery ds` would be the wrong stand-in for a flooding responder with
+more than one datagram): `\a\b\queryid\2\final\` then `\c\d\queryid\1\final\` — two fragments both marked
+final.  The first pass ends still reading (after the first datagram the final number is 2 with one fragment in hand,
+after the second the final number is 1 with two); in the second pass the first datagram sets the final number back to 2
+while both fragments are in hand, and the query answers `c=d, a=b`.  Three passes give what two give. -/
+theorem flood_one_pass_not_enough :
+    let d1 : Bytes := [92, 97, 92, 98, 92, 113, 117, 101, 114, 121, 105, 100, 92, 50, 92, 102, 105, 110, 97, 108, 92]
+    let d2 : Bytes := [92, 99, 92, 100, 92, 113, 117, 101, 114, 121, 105, 100, 92, 49, 92, 102, 105, 110, 97, 108, 92]
+    runQuery [d1, d2] = .timeout ∧
+    runQuery ([d1, d2] ++ [d1, d2]) = .response ⟨[([97], [98]), ([99], [100])], [], [], .gs1⟩ ∧
+    runQuery ([d1, d2] ++ [d1, d2] ++ [d1, d2]) = .response ⟨[([97], [98]), ([99], [100])], [], [], .gs1⟩ := by
+  decide
+
+/-- non-vacuity of the flood theorems on the corpus's own flood datagrams: `\hostname\x\queryid\1` (never final)
+repeated times out however often it is repeated; a complete single-fragment status answers at the first read -/
+example : runQuery (List.replicate 7 (Bytes.ofAscii "\\hostname\\x\\queryid\\1")) = .timeout ∧
+    runQuery [Bytes.ofAscii "\\hostname\\x\\queryid\\1"] = .timeout ∧
+    runQuery (List.replicate 5 (Bytes.ofAscii "\\hostname\\x\\queryid\\1\\final\\")) =
+      .response ⟨[(Bytes.ofAscii "hostname", Bytes.ofAscii "x")], [], [], .gs1⟩ :=
+  ⟨(flood_single_stabilises _ 6).trans (by decide), by decide, (flood_single_stabilises _ 4).trans (by decide)⟩
+
+end Swat4.C07
